@@ -1,13 +1,19 @@
 """C04 — results depend only on the set of transactions, not on how it was supplied."""
 import copy
+import json
 import re
 
 import common
-from propbase import PropBase, model_cfg, cmp_status
+from propbase import PropBase, model_cfg, model_tscfg, cmp_status
 
 OUTS = ["txns", "identity", "equity", "balance", "balgrp", "register", "meta"]
 TEXT_OUTS = ["identity", "equity", "balance", "balgrp", "register", "meta"]
 NUM_RE = re.compile(r"^-?\d+(\.\d+)?$")
+
+
+def cj(x):
+    """canonical text of a JSON value (multiset comparison of loaded transactions)"""
+    return json.dumps(x, sort_keys=True, ensure_ascii=False)
 
 
 def numeric_tokens(text):
@@ -118,28 +124,83 @@ class C04(PropBase):
     def impl_case(self, case):
         return case
 
+    # the model loads both arrangements as well: A as the generator's AST (semantic layers) and as the one text
+    # (grammar model, `loadText`); B as the sharded files at text level (`loadFiles`, files in listed order)
     def model_case(self, case):
-        c = {k: v for k, v in case.items() if k not in ("text", "files", "perm")}
-        c["cfg"] = model_cfg(case.get("cfg", {}))
-        c["want"] = ["txns"]
-        return c
+        mcfg = model_cfg(case.get("cfg", {}))
+        ts = model_tscfg(case.get("cfg", {}))
+        base = {"op": "run", "cfg": mcfg, "want": ["txns"]}
+        if ts is not None:
+            base["tscfg"] = ts
+        a = dict(base, txns=case["txns"])
+        t = dict(base, text=case["text"]) if ts is not None else None
+        b = dict(base, files=[{"text": f["text"]} for f in case["files"]]) if ts is not None else None
+        # a third order of the files (reversed): the model's own file-order freedom is exercised too
+        r = dict(base, files=[{"text": f["text"]} for f in reversed(case["files"])]) if ts is not None else None
+        return {"a": a, "t": t, "b": b, "r": r}
+
+    def run_model(self, mcases):
+        flat, where = [], []
+        for i, mc in enumerate(mcases):
+            for k in ("a", "t", "b", "r"):
+                if mc.get(k) is not None:
+                    flat.append(mc[k])
+                    where.append((i, k))
+        ans = common.run_driver([common.TK_MODEL], flat)
+        out = [dict() for _ in mcases]
+        for (i, k), a in zip(where, ans):
+            out[i][k] = a
+        # the answer of arrangement A (AST) is the primary one (status protocol of bin/check)
+        return [dict(o.get("a", {}), arr=o) for o in out]
 
     def compare(self, case, impl, model):
         a0 = impl["runs"][0][0]
-        d = cmp_status(a0, model)
+        arr = model.get("arr", {})
+        ma = arr.get("a", model)
+        d = cmp_status(a0, ma)
         if d:
             return d
+        # the model's loads of the other arrangements: same status as its load of A (C04 `shards_free`, first clause)
+        for k in ("t", "b", "r"):
+            mk = arr.get(k)
+            if mk is None:
+                continue
+            if mk.get("r") in ("BADCASE", "GARBLED"):
+                return "driver problem: model arrangement %s: %s" % (k, mk.get("msg", ""))
+            if mk.get("r") != ma.get("r"):
+                return "model load status differs between arrangements: A=%s %s=%s" % (ma.get("r"), k, mk.get("r"))
         if a0.get("r") != "OK":
             return None
-        if case["kind"] == "duplicates":
-            return None
-        mv = model["out"]["txns"]["v"]
+        mv = ma["out"]["txns"]["v"]
+        mb = arr["b"]["out"]["txns"]["v"] if arr.get("b") else None
+        distinct = case["kind"] != "duplicates"
+        if arr.get("t") and arr["t"]["out"]["txns"]["v"] != mv:
+            return "model: the one text loads differently from the generator's AST"
+        if distinct:
+            # distinguishable transactions: the model's loads of the two arrangements are EQUAL lists
+            for k in ("b", "r"):
+                if arr.get(k) and arr[k]["out"]["txns"]["v"] != mv:
+                    return "model: arrangement %s loads to a different list than arrangement A" % k
+        else:
+            # otherwise permutations of each other
+            for k in ("b", "r"):
+                if arr.get(k) and sorted(map(cj, arr[k]["out"]["txns"]["v"])) != sorted(map(cj, mv)):
+                    return "model: arrangement %s does not load to a permutation of arrangement A" % k
         for ra, rb in impl["runs"]:
-            for r in (ra, rb):
+            for which, r, want in (("one-file", ra, mv), ("sharded", rb, mb if mb is not None else mv)):
                 if r.get("r") != "OK":
                     return "an arrangement failed to load: %s" % r.get("r")
-                if r["out"]["txns"].get("v") != mv:
-                    return "loaded order differs from the model's sorted order"
+                got = r["out"]["txns"].get("v")
+                if distinct:
+                    if got != want:
+                        return "loaded order of the %s arrangement differs from the model's load of that arrangement" % which
+                else:
+                    # indistinguishable transactions: the stable sort keeps supply order among equal keys, and the
+                    # directory walk order of the implementation is not the model's file order: compare as multisets
+                    if sorted(map(cj, got)) != sorted(map(cj, want)):
+                        return "loaded transactions of the %s arrangement differ (as a multiset) from the model's" % which
+                    if which == "one-file" and got != want:
+                        return "loaded order of the one-file arrangement differs from the model's (stable sort)"
         return None
 
     def oracle(self, case, impl):
@@ -184,14 +245,16 @@ class C04(PropBase):
         return ("a generated set of transactions is supplied twice: as one text, and permuted + sharded over 1..n files in "
                 "nested directories with another random layout (loaded through the directory walk); each arrangement is "
                 "run %d times in fresh processes (fresh hash seeds); all six output texts must be byte-identical when "
-                "headers are pairwise distinct, balance/balance-group figures equal as numbers otherwise; the Lean model's "
-                "sorted order is compared with the loaded order of every run; non-trivial = more than one file or a "
-                "non-identity permutation" % self.REPEATS)
+                "headers are pairwise distinct, balance/balance-group figures equal as numbers otherwise; the Lean model "
+                "loads both arrangements too (A as AST and as text, B as the sharded files at text level through loadFiles, "
+                "also with the files reversed): its loads must agree with each other (equal lists for distinct headers, "
+                "permutations otherwise) and the loaded order of every implementation run is compared with the model's "
+                "load of the same arrangement; non-trivial = more than one file or a non-identity permutation" % self.REPEATS)
 
     def trusted_base(self):
         return super().trusted_base() + [
-            "modelled, not verified: std HashMap seeding (sampled by fresh processes), walkdir traversal order, "
-            "the text grammar (layout variants are exercised on the implementation only until the grammar model is merged)"]
+            "sampled, not modelled: std HashMap seeding (fresh processes), walkdir traversal order (the model loads the "
+            "files in the listed and in the reversed order; file-order freedom is the theorem C04.shards_free)"]
 
     def assumptions(self):
         return ["byte-identity is required only for transactions pairwise distinct in (instant, code, description, uuid)"]
